@@ -43,6 +43,13 @@ def gen_chain(rng, sc, length):
             spec, tags = sc.mutate(rng, spec, 1, kinds=list(sc.SHARED_MUTATIONS))
             chain.append((sc.render(spec), list(tags)))
             continue
+        if rng.random() < 0.15:
+            # pin / unpin an inheritable facet of an overloaded pointer, or change the parent's facet (next-step combos)
+            nspec, tags = sc.mutate(rng, spec, 1, kinds=list(sc.PIN_MUTATIONS))
+            if tags:
+                spec = nspec
+                chain.append((sc.render(spec), list(tags)))
+                continue
         if rng.random() < 0.2:
             # cross-module renames / re-parenting of a type that owns an overload away from the providing base
             nspec, tags = sc.mutate(rng, spec, 1, kinds=rng.choice(
@@ -83,7 +90,7 @@ def gen_rebase_chain(rng, length):
     return chain
 
 
-def check_chain(ctx: core.Ctx, eng: c02.Engine, chain, stream='chains', fixed_key=None) -> dict:
+def check_chain(ctx: core.Ctx, eng: c02.Engine, chain, stream='chains', fixed_key=None, probe=False) -> dict:
     """chain = [(sdl, tags)].  Returns a coverage record.  `fixed_key`: report failures under that key (corpus)."""
     sc = eng.sc
     empty_sdl = sc.render(sc.empty_spec())
@@ -113,6 +120,14 @@ def check_chain(ctx: core.Ctx, eng: c02.Engine, chain, stream='chains', fixed_ke
                 lines=diffs, fixed_key=fixed_key)
             rec['outcome'] = 'FAIL-step'
             return rec
+        if probe:
+            pl = c02.probe_compare(eng, nxt, tgt)
+            if pl:
+                ctx.fail(fixed_key or f'l2-probe:unclassified:{c02.h8(*pl)}:{key_in}',
+                         f'after step {i + 1} the schema equals S{i + 1} field by field but a follow-up ALTER of a parent '
+                         f'pointer propagates differently on it than on S{i + 1}', detail | {'differences': pl})
+                rec['outcome'] = 'FAIL-probe'
+                return rec
         # direct migration ∅ -> Si (the chain result equals Si, so the direct result must equal Si too)
         direct, ed = eng.migrate(base, sdl)
         if ed is not None:
@@ -169,9 +184,9 @@ def run_chains(ctx: core.Ctx, eng: c02.Engine, n_chains: int, deadline_s: float 
     sc = eng.sc
     t0 = time.time()
     recs = []
-    for group, chains in c02.REGRESSION_CHAINS.items():     # deterministic witness shapes, always first
-        for ch in chains:
-            recs.append(check_chain(ctx, eng, [(s, [group + '-chain']) for s in ch], stream=group + '-chains'))
+    for group, ch in c02.regression_chains_for(ctx):        # deterministic witness shapes, always first
+        recs.append(check_chain(ctx, eng, [(s, [group + '-chain']) for s in ch], stream=group + '-chains',
+                                probe=(group == 'pinning')))
     for _ in range(ctx.budget(2, 60)):
         recs.append(check_chain(ctx, eng, gen_rebase_chain(ctx.rng, ctx.rng.choice([3, 4])), stream='rebase-chains'))
     corpus = run_corpus(ctx, eng)
